@@ -114,7 +114,7 @@ class C13(Prop):
         calls = listlit(o["calls"], lambda p: pairlit(natlit(p[0]), natlit(p[1])))
         return (
             f"groups_eqb (group_by {labs}) {g} && groups_eqb (group_by_loop {labs}) {g} "
-            f"&& pairs_eqb (pairs {natlit(c['n'])}) {calls}"
+            f"&& calls_okb {natlit(c['n'])} {calls}"
         )
 
     def show(self, c):
@@ -158,8 +158,11 @@ class C13(Prop):
         calls = [tuple(p) for p in o["calls"]]
         if any(i == j or i < 0 or j < 0 for i, j in calls):
             fail("bad-comparison-call", "comparison called on identical or foreign events")
-        if sorted(tuple(sorted(p)) for p in calls) != list(itertools.combinations(range(n), 2)):
-            fail("comparison-calls", "comparison function not called exactly once per unordered pair of distinct events")
+        if any(i >= n or j >= n for i, j in calls):
+            fail("bad-comparison-call", "comparison called on identical or foreign events")
+        # the property does not ask for every pair to be compared (a version that skips pairs whose answer cannot change
+        # the components is fine); that the code at this commit compares exactly `pairs n` is the theorem
+        # C13_src_queries on the translated source, not a demand of this oracle
         if not o["types_ok"] or not o["seq_ids_distinct"]:
             fail("sequence-objects", "results are not distinct Sequence objects")
         return fails
@@ -172,6 +175,8 @@ class C13(Prop):
     def tags(self, c, o):
         t = [c["kind"], f"n:{c['n'] if c['n'] < 7 else ('7-20' if c['n'] <= 20 else '21+')}"]
         if o["res"][0] == "ok":
+            allp = sorted(tuple(sorted(p)) for p in o["calls"]) == list(itertools.combinations(range(c["n"]), 2))
+            t.append("calls:every-pair-once" if allp else "calls:not-every-pair")
             t.append(f"components:{min(len(o['groups']), 6)}{'+' if len(o['groups']) >= 6 else ''}")
         return t
 
